@@ -14,6 +14,29 @@ BASELINE_OFF = (
 
 # id -> (category, technique, text, note, design_ref)
 CHECKS = {
+    "C01": (
+        "exploration",
+        "bounded-exhaustive enumeration of (type, value, target, option set) on compiled generated code vs reference encoder",
+        "Every type of a bounded DSDL universe (every primitive kind and width 1..64 at every bit offset 0..7, arrays, nested "
+        "sealed/delimited composites, unions) is generated with the working tree for C (any/little/big x asserts), C++14/17/20 "
+        "and Python, compiled, and every value of a per-leaf boundary alphabet (incl. storage-range values that must "
+        "saturate/truncate, NaN/inf, unrepresentable lengths/tags) is serialized; size and bytes must equal an independent "
+        "reference encoder written over the PyDSDL model.",
+        "PyDSDL 1.25 and vf/codec/ref.py are trusted; gcc 12 on a little-endian host; cetl/pmr flavours not executed; value "
+        "alphabets and array capacities are small (bounds in evidence).",
+        "DESIGN.md section 3, C01",
+    ),
+    "C02": (
+        "exploration",
+        "bounded-exhaustive enumeration of (type, byte string, target, option set) on compiled generated code vs reference decoder",
+        "For every type of the bounded universe: every valid encoding, every truncation, trailing garbage, every single-bit "
+        "flip, all strings of length <=2 for tiny types and all-ones/alternating/zero strings of every length are "
+        "deserialized into poisoned objects by the generated C, C++ and Python code; decoded value tree, error verdict "
+        "(representation errors only) and consumed<=supplied must agree with an independent reference decoder.",
+        "PyDSDL 1.25 and vf/codec/ref.py are trusted; per-type byte-string cap reported as a cap when hit; only "
+        "consumed<=supplied is demanded (consumed==spec size is a statistic).",
+        "DESIGN.md section 3, C02",
+    ),
     "C14": (
         "exploration",
         "bounded-exhaustive enumeration of primitive calls in compiled drivers (ASan/UBSan) vs bit-at-a-time reference",
